@@ -148,10 +148,13 @@ def run_gt(case):
     evals = 0
     nz = 0
     outs = sorted({b for o in ops if o[0] == "A" for b in (o[2][1],) if b != EPS} | ({0} if case.get("ints") else {"a"}), key=repr)
-    for order in ("cfg@fst", "fst.T@cfg"):
+    orders = ["cfg@fst", "fst.T@cfg"]
+    if fsm.no_repeats(ops) and len(ops) <= 5:
+        orders.append("cfg@fst(set_*)")  # the same transducer built through the public set_I / set_F / set_arc
+    for order in orders:
         g = gram.build(rules, Poly, gram.poly_weights(len(rules)), V=V)
-        t = fsm.build(FST, Poly, ops, WT)
-        if order == "cfg@fst":
+        t = fsm.build(FST, Poly, ops, WT, use_set=order.endswith("(set_*)"))
+        if order.startswith("cfg@fst"):
             comp = _call(lambda: g @ t)
         else:
             comp = _call(lambda: t.T @ g)
